@@ -38,6 +38,10 @@ func runC01(c *Ctx) {
 	if es := c.P.LangFunc("(*Evaluator).evalStatement"); es != nil {
 		c.shared("R10", "C07/R7", "for-in over an array iterates with Go's range over the array value taken at loop entry (bounds-safe by construction): an index loop with a hoisted length panics when the body shrinks the array", keyHas("for-in ValueArray"), func(s *Ctx) { c07ForIn(s, es) })
 	}
+	c.shared("R11", "C04/R3", "a value that contains itself ends in an error or a marker, not in a Go stack overflow: every recursive descent of the renderer and of the JSON converter passes the check flag true and the extended path, and is reached only after the path scan", keyHas("cycle-guard"), func(s *Ctx) {
+		cycleGuard(s, "R3", "(*Value).toGoValueInterval")
+		cycleGuard(s, "R3", "(*Value).prettyStringInteral")
+	})
 	c.shared("R9", "C08/R3", "runaway recursion ends in an error, not in a Go stack overflow: every frame pushed on another one is one deeper, and the depth test precedes the push", keyHas("depth"), func(s *Ctx) { c08R3(s, discoverFrameModel(s.P), "R3") })
 }
 
